@@ -57,6 +57,7 @@ class DC:
         self.reply_pad_extra = 0  # extra 16-byte blocks of auth padding (still conforming)
         self.reply_pad: t.Optional[int] = None  # exact auth padding to use (None = minimal 16-byte alignment); may misalign the trailer
         self.reply_pad_fill = 0  # value of the auth padding octets (a receiver must not look at them)
+        self.force_hresult: t.Optional[int] = None  # GetKey fails with this HRESULT (access denied, RPC server too busy, ...)
         self.reply_reserved = 0  # auth_reserved octet of the reply's security trailer (ignored on receipt, MS-RPCE 2.2.2.11)
         self.reply_alloc_hint = "padded"  # alloc_hint convention of sealed replies: padded | unpadded | zero | 16 | max (it is only a hint)
         self.envelope_override: t.Optional[t.Callable[[gkdi.Envelope], gkdi.Envelope]] = None
@@ -96,6 +97,8 @@ class DC:
 
     def get_key(self, sd: bytes, rkid: t.Optional[uuid.UUID], l0: int, l1: int, l2: int) -> t.Tuple[t.Optional[bytes], int]:
         self.getkey_calls.append((sd, rkid, l0, l1, l2))
+        if self.force_hresult is not None:
+            return None, self.force_hresult
         rid = rkid or self.default_root
         rk = self.roots.get(rid) if rid else None
         if rk is None:
